@@ -36,7 +36,7 @@ theorem takeDigits_len : ∀ inp : Bytes, (takeDigits inp).2.length ≤ inp.leng
 
 /-- "`x` does not panic and, when it returns `(v, r)`, `r` is no longer than `n`" -/
 def Shrinks {α} (x : Outcome (α × Bytes)) (n : Nat) : Prop :=
-  x.isPanic = false ∧ ∀ v r, x = .ok (v, r) → r.length ≤ n
+  x.fine = true ∧ ∀ v r, x = .ok (v, r) → r.length ≤ n
 
 theorem Shrinks.mono {α} {x : Outcome (α × Bytes)} {n m : Nat} (h : Shrinks x n) (hm : n ≤ m) :
     Shrinks x m := ⟨h.1, fun v r e => Nat.le_trans (h.2 v r e) hm⟩
@@ -55,8 +55,8 @@ theorem shrinks_map {α β} (x : Outcome (α × Bytes)) (f : α → Bytes → Ou
   cases x with
   | ok p => obtain ⟨v, r⟩ := p; exact hf v r (hx.2 v r rfl)
   | err => exact shrinks_err n
-  | panic k => have := hx.1; simp at this
-  | diverge => exact ⟨rfl, fun _ _ e => by cases e⟩
+  | panic k => have := hx.1; simp [Outcome.fine] at this
+  | diverge => have := hx.1; simp [Outcome.fine] at this
 
 theorem readName_shrinks : ∀ inp : Bytes, Shrinks (readName inp) inp.length
   | [] => by unfold readName; exact shrinks_ok _ _ _ (Nat.le_refl _)
@@ -233,5 +233,237 @@ theorem readNumber_shrinks (inp : Bytes) : Shrinks (readNumber inp) inp.length :
   simp only
   repeat' split
   all_goals first | exact shrinks_err _ | exact shrinks_ok _ _ _ hle
+
+theorem readWord_consumes (b : Nat) (rest : Bytes) (h : isDelim b = false) :
+    (readWord (b :: rest)).2.length ≤ rest.length := by
+  have := readWord_len rest
+  unfold readWord
+  simp [h]; exact this
+
+theorem isDelim_of_alpha (b : Nat) (h : isAlpha b = true) : isDelim b = false := by
+  simp only [isAlpha, Bool.or_eq_true, Bool.and_eq_true, decide_eq_true_eq] at h
+  simp only [isDelim, isWs, Bool.or_eq_false_iff, beq_eq_false_iff_ne, ne_eq]
+  omega
+
+/-- a number token always consumes its first byte (sign, digit or period) -/
+theorem readNumber_consumes (b : Nat) (rest : Bytes)
+    (hb : (b == 43 || b == 45 || isDigit b || b == 46) = true) :
+    Shrinks (readNumber (b :: rest)) rest.length := by
+  have h4 := numExp_len (numFrac (takeDigits (numSign (b :: rest)).2.2).2).2.2
+  have h3 := numFrac_len (takeDigits (numSign (b :: rest)).2.2).2
+  have key : (numFrac (takeDigits (numSign (b :: rest)).2.2).2).2.2.length ≤ rest.length := by
+    have td := takeDigits_len rest
+    simp only [Bool.or_eq_true, beq_iff_eq] at hb
+    rcases hb with ((hb | hb) | hb) | hb
+    · subst hb
+      have e : numSign (43 :: rest) = (false, true, rest) := rfl
+      rw [e] at h3 ⊢
+      simp only at h3 ⊢
+      omega
+    · subst hb
+      have e : numSign (45 :: rest) = (true, true, rest) := rfl
+      rw [e] at h3 ⊢
+      simp only at h3 ⊢
+      omega
+    · have hd : 48 ≤ b := by
+        simp only [isDigit, Bool.and_eq_true, decide_eq_true_eq] at hb; omega
+      have e : numSign (b :: rest) = (false, false, b :: rest) := by
+        unfold numSign
+        split
+        · rename_i r heq; cases heq; omega
+        · rename_i r heq; cases heq; omega
+        · rfl
+      have e2 : takeDigits (b :: rest) = (b :: (takeDigits rest).1, (takeDigits rest).2) := by
+        rw [takeDigits]; simp [hb]
+      rw [e] at h3 ⊢
+      simp only at h3 ⊢
+      rw [e2] at h3 ⊢
+      simp only at h3 ⊢
+      omega
+    · subst hb
+      have e : numSign (46 :: rest) = (false, false, 46 :: rest) := rfl
+      have e2 : takeDigits (46 :: rest) = ([], 46 :: rest) := by
+        rw [takeDigits]; simp [isDigit]
+      have e3 : numFrac (46 :: rest) = (true, (takeDigits rest).1, (takeDigits rest).2) := rfl
+      rw [e]; simp only; rw [e2]; simp only; rw [e3]; simp only; exact td
+  have hle : (numExp (numFrac (takeDigits (numSign (b :: rest)).2.2).2).2.2).2.2.length ≤ rest.length := by
+    omega
+  unfold readNumber
+  simp only
+  repeat' split
+  all_goals first | exact shrinks_err _ | exact shrinks_ok _ _ _ hle
+
+/-! ### `next_token` -/
+
+/-- what every `next_token` result satisfies relative to a bound `n` on the remaining input -/
+def GoodLex (n : Nat) (r : LexRes) : Prop :=
+  r.rest.length ≤ n ∧ r.depth ≤ n + 2 ∧ r.tok.fine = true
+
+theorem goodLex_lexOf (x : Outcome (Tok × Bytes)) (n : Nat) (h : Shrinks x n) : GoodLex n (lexOf x) := by
+  cases x with
+  | ok p => obtain ⟨t, r⟩ := p; exact ⟨h.2 t r rfl, by simp [lexOf], rfl⟩
+  | err => exact ⟨by simp [lexOf], by simp [lexOf], rfl⟩
+  | panic k => have := h.1; simp [Outcome.fine] at this
+  | diverge => have := h.1; simp [Outcome.fine] at this
+
+theorem shrinks_bind_tok {β} (x : Outcome Tok) (f : Tok → Outcome (β × Bytes)) (n : Nat)
+    (hx : x.fine = true) (hf : ∀ t, Shrinks (f t) n) : Shrinks (x >>= f) n := by
+  cases x with
+  | ok t => exact hf t
+  | err => exact shrinks_err n
+  | panic k => simp [Outcome.fine] at hx
+  | diverge => simp [Outcome.fine] at hx
+
+theorem keywordTok_np (w : Bytes) : (keywordTok w).fine = true := by
+  unfold keywordTok
+  repeat' split
+  all_goals rfl
+
+theorem nextToken_good (o : LexOpts) : ∀ inp : Bytes,
+    (nextToken o inp).rest.length ≤ inp.length - 1 ∧ (nextToken o inp).depth ≤ inp.length + 1 ∧
+      (nextToken o inp).tok.fine = true
+  | [] => by simp [nextToken, Outcome.fine]
+  | b :: rest => by
+    have ih := nextToken_good o rest
+    have hrec : GoodLex rest.length (nextToken o rest) := ⟨by omega, by omega, ih.2.2⟩
+    have hrec1 : GoodLex rest.length
+        ⟨(nextToken o rest).tok, (nextToken o rest).rest, (nextToken o rest).depth + 1⟩ :=
+      ⟨by simp; omega, by simp; omega, ih.2.2⟩
+    suffices h : GoodLex rest.length (nextToken o (b :: rest)) by
+      exact ⟨by simpa using h.1, by have := h.2.1; simp; omega, h.2.2⟩
+    have hw := readWord_len (b :: rest)
+    have hgoodErr : GoodLex rest.length ⟨Outcome.err, [], 1⟩ := ⟨by simp, by simp, rfl⟩
+    unfold nextToken
+    by_cases c1 : isWs b = true
+    · rw [if_pos c1]; exact hrec
+    rw [if_neg c1]
+    by_cases c2 : (b == 37) = true
+    · rw [if_pos c2]; exact ⟨readComment_len rest, by simp, rfl⟩
+    rw [if_neg c2]
+    by_cases c3 : (b == 47) = true
+    · rw [if_pos c3]
+      apply goodLex_lexOf
+      exact shrinks_map (readName rest) (fun n r => pure (Tok.name n, r)) _ (readName_shrinks rest)
+        (fun v r hr => shrinks_ok _ _ _ hr)
+    rw [if_neg c3]
+    by_cases c4 : (b == 40) = true
+    · rw [if_pos c4]
+      apply goodLex_lexOf
+      exact shrinks_map (readLit o.lenientSyntax rest .normal 1 []) (fun s r => pure (Tok.str s, r)) _
+        (readLit_shrinks _ rest .normal 1 [] trivial) (fun v r hr => shrinks_ok _ _ _ hr)
+    rw [if_neg c4]
+    by_cases c5 : (b == 60) = true
+    · rw [if_pos c5]
+      split
+      · exact ⟨by simp, by simp, rfl⟩
+      · apply goodLex_lexOf
+        exact shrinks_map (readHexStr o.lenientSyntax rest []) (fun s r => pure (Tok.str s, r)) _
+          (readHexStr_shrinks _ rest []) (fun v r hr => shrinks_ok _ _ _ hr)
+    rw [if_neg c5]
+    by_cases c6 : (b == 62) = true
+    · rw [if_pos c6]
+      split
+      · exact ⟨by simp, by simp, rfl⟩
+      · exact hgoodErr
+    rw [if_neg c6]
+    by_cases c7 : (b == 91) = true
+    · rw [if_pos c7]; exact ⟨by simp, by simp, rfl⟩
+    rw [if_neg c7]
+    by_cases c8 : (b == 93) = true
+    · rw [if_pos c8]; exact ⟨by simp, by simp, rfl⟩
+    rw [if_neg c8]
+    by_cases c9 : (b == 116 || b == 102 || b == 110) = true
+    · rw [if_pos c9]
+      split
+      rename_i w r heq
+      have hr : r.length ≤ rest.length := by
+        have : r = (readWord (b :: rest)).2 := by rw [heq]
+        rw [this]
+        apply readWord_consumes
+        simp only [Bool.or_eq_true, beq_iff_eq] at c9
+        rcases c9 with (c9 | c9) | c9 <;> subst c9 <;> decide
+      apply goodLex_lexOf
+      exact shrinks_bind_tok _ _ _ (keywordTok_np _) (fun t => shrinks_ok _ _ _ hr)
+    rw [if_neg c9]
+    by_cases c10 : (b == 43 || b == 45 || isDigit b || b == 46) = true
+    · rw [if_pos c10]
+      apply goodLex_lexOf
+      exact readNumber_consumes b rest c10
+    rw [if_neg c10]
+    by_cases c11 : (b == 82) = true
+    · rw [if_pos c11]; exact ⟨by simp, by simp, rfl⟩
+    rw [if_neg c11]
+    by_cases c12 : isAlpha b = true
+    · rw [if_pos c12]
+      split
+      rename_i w r heq
+      have hr : r.length ≤ rest.length := by
+        have : r = (readWord (b :: rest)).2 := by rw [heq]
+        rw [this]
+        exact readWord_consumes b rest (isDelim_of_alpha b c12)
+      apply goodLex_lexOf
+      refine shrinks_bind_tok _ _ _ (keywordTok_np _) (fun t => ?_)
+      split
+      · exact shrinks_err _
+      · exact shrinks_err _
+      · exact shrinks_ok _ _ _ hr
+    rw [if_neg c12]
+    by_cases c13 : (b == 59) = true
+    · rw [if_pos c13]; exact hrec1
+    rw [if_neg c13]
+    by_cases c14 : isProblematic o b = true
+    · rw [if_pos c14]
+      by_cases c15 : o.lenientEncoding = true
+      · rw [if_pos c15]
+        by_cases c16 : (dropWs rest).isEmpty = true
+        · rw [if_pos c16]; exact hgoodErr
+        · rw [if_neg c16]; exact hrec1
+      · rw [if_neg c15]; exact hgoodErr
+    rw [if_neg c14]
+    by_cases c17 : o.lenientSyntax = true
+    · rw [if_pos c17]; exact hrec1
+    · rw [if_neg c17]; exact hgoodErr
+
+/-- `fine` excludes panics -/
+theorem fine_not_panic {α} (x : Outcome α) (h : x.fine = true) : x.isPanic = false := by
+  cases x <;> simp_all [Outcome.fine]
+
+/-! ### the token loop never runs out of fuel: every token consumes at least one byte -/
+
+theorem lexAll_fine (o : LexOpts) : ∀ (fuel : Nat) (inp : Bytes) (acc : List Tok) (d : Nat),
+    inp.length < fuel → (lexAll o fuel inp acc d).2.1.fine = true
+  | 0, inp, acc, d, h => by omega
+  | fuel + 1, inp, acc, d, h => by
+    have hg := nextToken_good o inp
+    rw [lexAll]
+    cases ht : (nextToken o inp).tok with
+    | ok t =>
+      cases inp with
+      | nil =>
+        have : (nextToken o []).tok = .ok .eof := rfl
+        rw [this] at ht; cases ht; rfl
+      | cons b rest =>
+        have hlen : (nextToken o (b :: rest)).rest.length < fuel := by
+          have := hg.1; simp at this h; omega
+        cases t <;> first | rfl | exact lexAll_fine o fuel _ _ _ hlen
+    | err => rfl
+    | panic k => have := hg.2.2; rw [ht] at this; simp [Outcome.fine] at this
+    | diverge => have := hg.2.2; rw [ht] at this; simp [Outcome.fine] at this
+
+theorem lexAll_depth (o : LexOpts) : ∀ (fuel : Nat) (inp : Bytes) (acc : List Tok) (d : Nat),
+    (lexAll o fuel inp acc d).2.2 ≤ max d (inp.length + 1)
+  | 0, inp, acc, d => by rw [lexAll]; exact Nat.le_max_left _ _
+  | fuel + 1, inp, acc, d => by
+    have hg := nextToken_good o inp
+    rw [lexAll]
+    have hd : max d (nextToken o inp).depth ≤ max d (inp.length + 1) := by omega
+    cases ht : (nextToken o inp).tok with
+    | ok t =>
+      have ih := lexAll_depth o fuel (nextToken o inp).rest (t :: acc) (max d (nextToken o inp).depth)
+      have hl : (nextToken o inp).rest.length ≤ inp.length := by have := hg.1; omega
+      cases t <;> first | exact hd | (simp only; omega)
+    | err => exact hd
+    | panic k => exact hd
+    | diverge => exact hd
 
 end OxiVerif.C01
